@@ -26,6 +26,12 @@ def mk(kind, Scr, classes):
         return Client(("h", 1), socket_module=Scr.sm, default_noreply=True)
     if kind == "ClientIgn":
         return Client(("h", 1), socket_module=Scr.sm, default_noreply=False, ignore_exc=True)
+    if kind == "ClientUtf8":
+        return Client(("h", 1), socket_module=Scr.sm, default_noreply=True, encoding="utf8")
+    if kind == "PooledUtf8":
+        return PooledClient(("h", 1), socket_module=Scr.sm, default_noreply=True, encoding="utf8", max_pool_size=2)
+    if kind == "HashUtf8":
+        return HashClient([("h", 1)], socket_module=Scr.sm, default_noreply=True, encoding="utf8", retry_attempts=0, retry_timeout=0, dead_timeout=0)
     if kind == "PooledDnr":
         return PooledClient(("h", 1), socket_module=Scr.sm, default_noreply=True, max_pool_size=2)
     if kind == "Pooled":
@@ -46,9 +52,9 @@ def client_socks(kind, obj):
     def of_client(c):
         if getattr(c, "sock", None) is not None:
             out.append(c.sock)
-    if kind in ("Client", "ClientDnr", "ClientIgn"):
+    if kind in ("Client", "ClientDnr", "ClientIgn", "ClientUtf8"):
         of_client(obj)
-    elif kind in ("Pooled", "PooledDnr"):
+    elif kind in ("Pooled", "PooledDnr", "PooledUtf8"):
         for c in list(obj.client_pool._free_objs) + list(obj.client_pool._used_objs):
             of_client(c)
     else:
@@ -68,8 +74,8 @@ def run_sequence(ctx, kind, classes, seq, rng, model_lines, model_meta):
     W = S.world
     desc = []
     for n, (call, script) in enumerate(seq):
-        is_client = kind in ("Client", "ClientDnr", "ClientIgn")
-        dnr = kind in ("ClientDnr", "PooledDnr")
+        is_client = kind in ("Client", "ClientDnr", "ClientIgn", "ClientUtf8")
+        dnr = kind in ("ClientDnr", "PooledDnr", "ClientUtf8", "PooledUtf8", "HashUtf8")
         open_before = is_client and obj.sock is not None
         leftover_before = []
         if open_before:
@@ -107,7 +113,7 @@ def run_sequence(ctx, kind, classes, seq, rng, model_lines, model_meta):
             cf = script.get("connect_fault")
             sfk = script.get("send_fault")
             from clientlib import SOCK_CODES
-            line = (f"call {cfg_tok(dnr=dnr, ign=(kind == 'ClientIgn'))} open={int(open_before)} {call_tokens(call)} "
+            line = (f"call {cfg_tok(utf8=(kind == 'ClientUtf8'), dnr=dnr, ign=(kind == 'ClientIgn'))} open={int(open_before)} {call_tokens(call)} "
                     f"cf={'x' + str(SOCK_CODES[cf[1]]) if cf else '-'} sf={'x' + str(SOCK_CODES[sfk]) if sfk else '-'} {ev_tokens(evs)}")
             sock_open = obj.sock is not None
             unread = W.leftover(obj.sock) if sock_open else None
@@ -169,6 +175,21 @@ def main(argv):
                 run_sequence(ctx, kind, classes, seq, rng, model_lines if kind in ("Client", "ClientDnr", "ClientIgn") else None, model_meta)
                 ctx.case(("hostile-key", kind, hi, chunkmode))
                 ctx.count("hostile-keys")
+    # one memcached key spelled twice in one call (str and bytes), and text values whose encoded length differs from their character count
+    special = [{"op": "set_many", "items": [("a", b"1"), (b"a", b"2"), ("b", b"3")], "nr": False}, {"op": "set_many", "items": [(b"b", b"1"), ("b", b"2")], "nr": False},
+               {"op": "set_many", "items": [("a", b"1"), (b"a", b"2")], "nr": True}, {"op": "get_many", "ks": ["a", b"a", "b"]}, {"op": "gets_many", "ks": [b"b", "b"]},
+               {"op": "delete_many", "ks": ["a", b"a"], "nr": False}]
+    text = [{"op": "set", "k": "a", "v": "h\u00e9llo \u20ac", "nr": None}, {"op": "set", "k": "a", "v": "\u20ac\u20ac\u20ac", "nr": False}, {"op": "add", "k": "t", "v": "na\u00efve", "nr": True},
+            {"op": "set_many", "items": [("a", "\u00e9"), ("b", "plain"), ("c", "\U0001F600")], "nr": None}, {"op": "append", "k": "a", "v": "\u00fc", "nr": None},
+            {"op": "cas", "k": "a", "v": "\u00e9\u00e9", "cas": b"1", "nr": True}]
+    for kind, calls in [(k_, special) for k_ in kinds] + [(k_, text + special[:2]) for k_ in ("ClientUtf8", "PooledUtf8", "HashUtf8")]:
+        for ci, call in enumerate(calls):
+            for chunkmode in ("bytes", "one"):
+                seq = [({"op": "set", "k": "b", "v": b"7", "nr": False}, {}), (call, {"chunk": chunkmode}), (followups[ci % len(followups)], {"chunk": chunkmode}),
+                       ({"op": "add", "k": "a", "v": b"9", "nr": False}, {}), ({"op": "get", "k": "a"}, {}), ({"op": "version"}, {})]
+                run_sequence(ctx, kind, classes, seq, rng, model_lines if kind in ("Client", "ClientDnr", "ClientIgn", "ClientUtf8") else None, model_meta)
+                ctx.case(("special", kind, ci, chunkmode))
+                ctx.count("double-spelled keys / text values")
     # random sequences with several scripted calls
     for _ in range(20000 if ctx.thorough else 1500):
         kind = rng.choice(kinds)
